@@ -11,6 +11,8 @@ CHECKS = {
          "A-REAL; tensor model (element-wise ops, row indexing, transpose, row-major reshape as an uninterpreted layout); critic output free; IPPO row alignment and PPO end-to-end rows only bounded (native)."),
  "C18": ("proof", "The projection region of RainbowDQN._dqn_loss (real statements, executed on a generic tensor element) proved for every number of atoms, support range, reward, done flag, gamma and source probability: indices 0 <= L <= u <= N-1, weights >= 0, w_L + w_u = p (mass), w_L*L + w_u*u = p*b and its support-unit form (mean), b*dz+v_min = clip(r + gamma(1-d)z); AST wiring obligations: the two index_add_ scatter exactly those weights at L+offset / u+offset, the loss is -(proj*log q(a)).sum(1), the target distribution comes from the target net at the online greedy action.",
          "A-REAL (float32 rounding of b not modelled); index_add_ linearity and offset[i,j]=i*N trusted (per-element facts sum to per-row mass/mean); support[j]=v_min+j*dz trusted."),
+ "C08": ("proof", "Target statements of DQN.update, CQN.learn, DDPG.learn, TD3.learn (one-statement regions of the real functions, generic element): target = r + gamma(1-d)Q_target, so d=1 gives r; soft_update of DQN, CQN, RainbowDQN, DDPG, TD3, MADDPG, MATD3 proved by a loop invariant with the postcondition stated over ALL weights of the target network (tau*online + (1-tau)*old); DQN.init_hook proved to leave the target's weights in the detached TensorDict that DQN.soft_update iterates; AST wiring obligations for the source of Q_target, the delayed updates and Rainbow's n-step fields.",
+         "A-REAL; one generic real per parameter tensor; tensordict from_module/to_module/clone contract; parameters() order correspondence; autograd (what is minimised) trusted; MADDPG/MATD3 target expressions not covered."),
  "C09": ("proof", "ReplayBuffer.add/sample/clear/__len__ proved against a ring-buffer representation invariant with a ghost history (all capacities, cursor positions, batch widths incl. wrap exactly at/over the end); storage = last min(N,added) rows; sampled rows are stored rows, distinct indices, fresh copies. Multi-agent buffer: bounded native check only.",
          "TensorDict row model (slice views, slice assignment copies rows, advanced indexing returns a copy), torch.randperm is a permutation, ints mathematical; Transition shape normalisation and MultiAgentReplayBuffer are bounded stand-ins."),
  "C10": ("proof", "MultiStepReplayBuffer._get_n_step_info and .add proved for every n, gamma, number of envs and placement of done flags: the fused row is the discounted sum up to a cut index j with no terminal step of that env before j, cut only at the window end or where some env ends, with next_obs/done of step j and obs/action of step 0; add returns the first window element whose (obs, action) equal those of the row appended to the n-step storage (alignment with the 1-step buffer).",
